@@ -41,6 +41,10 @@
 //      that leaves q > 0 initializers pending: Q-q primaries are accepted, Q-q+1 throw
 //      RuntimeError (no ASan report) and the stepper is usable after reset_state().
 #include "harness/loop_explore.hh"
+#if defined(__SANITIZE_ADDRESS__)
+#    include <sanitizer/asan_interface.h>
+#    include <sanitizer/common_interface_defs.h>
+#endif
 
 using namespace celeritas;
 using namespace vf;
@@ -66,6 +70,49 @@ static int asan_errors()
 #else
     return 0;
 #endif
+}
+
+#if defined(__SANITIZE_ADDRESS__)
+//! AddressSanitizer is about to end the process on its own (fatal report, or an internal CHECK
+//! that fails because earlier wild writes of the code under test damaged its chunk headers):
+//! leave a crash record naming the running case, so that the driver reports a violation of
+//! that case (signature asan:<part>) instead of a broken check without a verdict.
+static void on_asan_death()
+{
+    vf::detail::write_crash("ASAN", 0);
+    _exit(5);
+}
+//! Called by AddressSanitizer with the text of every report, BEFORE the offending access is
+//! executed: the report becomes a violation of the running case and the shard ends in an
+//! orderly way instead of going on with memory that is about to be damaged.
+static vf::Run* g_run = nullptr;
+static void on_asan_report(char const* text)
+{
+    static bool entered = false;
+    if (entered || !g_run)
+        return;
+    entered = true;
+    std::string t = text ? text : "";
+    g_run->violation("exhaust:asan-report", vf::detail::g_case,
+                     "AddressSanitizer: " + t.substr(0, 1500));
+    g_run->end_case();
+    g_run->cap_hit("shard stopped after its first AddressSanitizer report");
+    int rc = g_run->finish();
+    fflush(nullptr);
+    _exit(rc);
+}
+#endif
+
+//! After an AddressSanitizer report the heap may be corrupted (recover mode keeps running and
+//! ASan itself may later die on its own damaged bookkeeping, leaving no result file): the
+//! report is recorded as a violation of the current case and the shard ends in an orderly way.
+[[noreturn]] static void stop_after_asan(vf::Run& R)
+{
+    R.end_case();
+    R.cap_hit("shard stopped after its first AddressSanitizer report");
+    int rc = R.finish();
+    fflush(nullptr);
+    _exit(rc);
 }
 
 struct CapCfg
@@ -180,8 +227,14 @@ static void part_secondary(vf::Run& R)
             cfg.xs_gamma = 3.0;
             cfg.xs_electron = 4.0;
             cfg.secondary_stack_factor = (cc.cap + 0.5) / cc.slots;
+            // ample (<= 3 primaries + 2 deviations x 3 secondaries pending); the default 4096 makes
+            // every Stepper construction allocate and poison ~0.5 MB under ASan
+            cfg.init_capacity = 256;
             if (cc.at_rest_only)
                 cfg.menu = {Outcome::absorb_in_flight, Outcome::annihilate};
+            // everything that builds or drives a Stepper runs inside a named case (crash / hang /
+            // ASan-death attribution); executions rename it to "root|<choice prefix>"
+            R.begin_case(root + "|", 600);
             std::unique_ptr<LoopProblem> P;
             try
             {
@@ -191,9 +244,9 @@ static void part_secondary(vf::Run& R)
             {
                 // an explicit rejection of the configuration is a "reported error"
                 R.tag("config-rejected:" + cc.id);
+                R.end_case();
                 continue;
             }
-            R.begin_case(root, 600);
             ExploreStats st;
             EventRun er;
             LoggingChooser ch;
@@ -202,6 +255,7 @@ static void part_secondary(vf::Run& R)
             P->recorder->call_stamp = &call;
             int asan0 = asan_errors();
             auto body = [&](Choices& c) {
+                R.begin_case(root + "|" + choices_to_string(c.prefix()), 600);
                 P->recorder->steps.clear();
                 ch.c = &c;
                 ch.log.clear();
@@ -221,7 +275,7 @@ static void part_secondary(vf::Run& R)
                     StepperResult r = (*stp)(make_span(pv));
                     er.calls = 1;
                     unsigned const horizon = cc.at_rest_only ? 300 : 5000;
-                    while (r && er.calls < horizon)
+                    while (r && er.calls < horizon && asan_errors() == asan0)
                     {
                         call = er.calls;
                         r = (*stp)();
@@ -242,8 +296,7 @@ static void part_secondary(vf::Run& R)
                 if (asan_errors() != asan0)
                 {
                     R.violation("exhaust:asan-report", cid, "AddressSanitizer reported an error");
-                    asan0 = asan_errors();
-                    return true;
+                    stop_after_asan(R);
                 }
                 if (!er.exception.empty())
                 {
@@ -506,7 +559,8 @@ static RefResult run_reference(LoopProblem& P, Stepper<MemSpace::host>& stp, Pri
         unsigned n = 1;
         out.max_queued = r.queued;
         out.max_alive = r.alive;
-        while (r && n++ < 5000)
+        int const a0 = asan_errors();
+        while (r && n++ < 5000 && asan_errors() == a0)
         {
             r = stp();
             out.max_queued = std::max<unsigned>(out.max_queued, r.queued);
@@ -564,7 +618,9 @@ static void part_initializer(vf::Run& R)
                 cfg.track_order = order;
                 cfg.xs_gamma = 5.0;
                 cfg.xs_electron = 8.0;
+                R.begin_case(root + "|reference", 600);
                 auto P = make_loop_problem(cfg);
+                int asan0 = asan_errors();
                 // reference event: its first interaction emits as many secondaries as Q holds,
                 // so that after a reset BOTH the slots and the initializer queue are used again
                 Outcome const ref_first = cap >= 3 ? Outcome::scatter_three : Outcome::scatter_plus_one;
@@ -572,16 +628,26 @@ static void part_initializer(vf::Run& R)
                 {
                     auto stp = P->make_stepper();
                     RefResult e0 = run_reference(*P, *stp, ref, ref_first);
+                    if (!e0.ok && !e0.what.empty())
+                    {
+                        // by construction the reference event never has more than min(Q, 3)
+                        // initializers pending: an error here is a spurious overflow
+                        R.violation("exhaust:spurious-overflow[reference-event]", root + "|reference",
+                                    fmt("the reference event (1 MeV gamma, first interaction %s, at most "
+                                        "%d initializers pending, capacity %u) fails on a FRESH state: ",
+                                        to_cstring(ref_first), cap >= 3 ? 3 : 1, cap)
+                                        + e0.what.substr(0, 400));
+                        R.end_case();
+                        continue;
+                    }
                     if (!e0.ok)
-                        R.harness_error("reference event does not complete: " + e0.what);
+                        R.harness_error("reference event does not complete");
                     if (e0.max_queued == 0)
                         R.harness_error("reference event never queues an initializer");
                     ref_hash = e0.hash;
                     R.maxi("ref_event_max_queued", e0.max_queued);
                 }
-                R.begin_case(root, 600);
                 ExploreStats st;
-                int asan0 = asan_errors();
                 struct Obs
                 {
                     bool threw{false}, other_exception{false}, completed{false};
@@ -611,7 +677,7 @@ static void part_initializer(vf::Run& R)
                     ob.results.push_back(r);
                     ob.calls = 1;
                     ob.max_queued = r.queued;
-                    while (r && ob.calls < max_calls)
+                    while (r && ob.calls < max_calls && asan_errors() == asan0)
                     {
                         call = ob.calls;
                         r = stp();
@@ -622,6 +688,7 @@ static void part_initializer(vf::Run& R)
                     return r;
                 };
                 auto body = [&](Choices& c) {
+                    R.begin_case(root + "|" + choices_to_string(c.prefix()), 600);
                     ob = Obs{};
                     P->recorder->steps.clear();
                     ch.c = &c;
@@ -729,8 +796,7 @@ static void part_initializer(vf::Run& R)
                     if (asan_errors() != asan0)
                     {
                         R.violation("exhaust:asan-report", cid, "AddressSanitizer reported an error");
-                        asan0 = asan_errors();
-                        return true;
+                        stop_after_asan(R);
                     }
                     if (ob.other_exception)
                     {
@@ -852,10 +918,9 @@ static void part_initializer(vf::Run& R)
                                                             extra, k, q);
                                 if (asan_errors() != asan0)
                                 {
-                                    asan0 = asan_errors();
                                     R.violation("exhaust:asan-report", cid,
                                                 "AddressSanitizer reported an error: " + pid);
-                                    return true;
+                                    stop_after_asan(R);
                                 }
                                 if (pr.other)
                                 {
@@ -903,9 +968,10 @@ static void part_initializer(vf::Run& R)
                     R.outcome(hash_mix(ob.threw, ob.max_queued));
                     return !((st.executions & 31) == 0 && R.expired());
                 };
-                if (R.replay() && R.replay_case() == root + "|primaries")
+                if (R.replay()
+                    && (R.replay_case() == root + "|primaries" || R.replay_case() == root + "|reference"))
                 {
-                    // only the probe below
+                    // only the reference event above / the probe below
                 }
                 else if (R.replay())
                 {
@@ -929,6 +995,7 @@ static void part_initializer(vf::Run& R)
                 if (!R.replay() || R.replay_case() == root + "|primaries")
                 {
                     std::string cid = root + "|primaries";
+                    R.begin_case(cid, 600);
                     for (unsigned n : {cap, cap + 1})
                     {
                         auto stp = P->make_stepper();
@@ -960,9 +1027,9 @@ static void part_initializer(vf::Run& R)
                         R.count("evaluations");
                         if (asan_errors() != asan0)
                         {
-                            asan0 = asan_errors();
                             R.violation("exhaust:asan-report", cid,
                                         fmt("AddressSanitizer reported an error: %u primaries into capacity %u", n, cap));
+                            stop_after_asan(R);
                         }
                         else if (n == cap && (threw || !completed || maxq > cap))
                             R.violation(threw ? "exhaust:spurious-overflow[primaries]"
@@ -988,10 +1055,10 @@ static void part_initializer(vf::Run& R)
                             }
                             if (asan_errors() != asan0)
                             {
-                                asan0 = asan_errors();
                                 R.violation("exhaust:asan-report", cid,
                                             "AddressSanitizer reported an error in the event after the "
                                             "rejected primaries");
+                                stop_after_asan(R);
                             }
                             else if (!after.ok || after.hash != ref_hash)
                                 R.violation("exhaust:state-not-usable-after-reset[primaries]", cid,
@@ -1012,6 +1079,11 @@ static void part_initializer(vf::Run& R)
 int main(int argc, char** argv)
 {
     vf::Run R(argc, argv, "C16", "c16_exhaust");
+#if defined(__SANITIZE_ADDRESS__)
+    __sanitizer_set_death_callback(on_asan_death);
+    g_run = &R;
+    __asan_set_error_report_callback(on_asan_report);
+#endif
     if (R.part() == "secondary")
         part_secondary(R);
     else if (R.part() == "initializer")
